@@ -613,18 +613,20 @@ impl AssemblyCode {
                         AsmMnemonic::DEC | AsmMnemonic::INC => {
                             // N and Z now describe the modified memory cell
                             flags = FlagsState::Unknown;
+                            // Like a store: the modified cell may be known under another
+                            // name (v,X and v,Y with X == Y, v+1 and v,X...)
                             if let Some(v) = &accumulator {
-                                if v.eq(&inst.dasm_operand) {
+                                if !v.starts_with("#") {
                                     accumulator = None;
                                 }
                             }
                             if let Some(v) = &x_register {
-                                if v.eq(&inst.dasm_operand) {
+                                if !v.starts_with("#") {
                                     x_register = None;
                                 }
                             }
                             if let Some(v) = &y_register {
-                                if v.eq(&inst.dasm_operand) {
+                                if !v.starts_with("#") {
                                     y_register = None;
                                 }
                             }
